@@ -40,6 +40,11 @@ def gen_cases(tier, seed):
     for s in specs:
         for pin in ("none", "fixed", "fixed_nofix", "empty"):
             cases.append({"layer": "L1", "mesh": s, "pin": pin, "nseq": 30 if tier == "quick" else 80, "seed": int(rng.integers(1 << 30)), "cost": 2})
+    for j in range(1 if tier == "quick" else 3):
+        # one mesh with more than 2^15 edges (more than 2^16 stored entries are rewritten by every refresh)
+        for pin in (("fixed",) if tier == "quick" else ("none", "fixed", "fixed_nofix")):
+            cases.append({"layer": "L1", "mesh": {"kind": "hex", "nx": int([112, 130, 150][j]), "ny": int([110, 125, 140][j]), "jitter": 0.05, "seed": int(rng.integers(1 << 30))},
+                          "pin": pin, "nseq": 0, "seqs": [[1, 2], [0, 1, 0], [2, 3, 1]], "seed": int(rng.integers(1 << 30)), "cost": 40})
     from . import _simcases
 
     cases += _simcases.c10_insitu_cases(tier, rng)
@@ -66,6 +71,33 @@ def run_case(spec):
     if spec.get("layer") == "L2":
         from . import _simcases
 
+        if spec.get("seed_from_screening"):
+            import copy
+            import shutil
+
+            from .. import sim, zoo
+
+            device, why = zoo.try_build_device(spec["device"])
+            if device is None:
+                return {"violations": [], "counters": {"refused_mesh": 1}, "classes": ["refused"], "nontrivial": False}
+            pre = copy.deepcopy(spec)
+            pre["options"].update(include_screening=True, screening_tolerance=1e-3, max_iterations_per_step=3000, output="file")
+            pre["drive"] = dict(pre["drive"], A=dict(pre["drive"]["A"]))
+            if pre["drive"]["A"].get("kind") == "ramp":
+                pre["drive"]["A"] = {"kind": "uniform", "B": pre["drive"]["A"]["B"]}
+            r0 = sim.run_sim(pre, [], device=device, keep_dir=True)
+            if r0.refused or r0.exception is not None or r0.solution is None:
+                shutil.rmtree(r0.outdir, ignore_errors=True) if getattr(r0, "outdir", None) else None
+                return {"violations": [], "counters": {"seed_run_failed": 1}, "classes": ["seed_run_failed"], "nontrivial": False,
+                        "sample": {"why": str(r0.refused or r0.exception)[:160]}}
+            amax = float(np.max(np.abs(np.asarray(r0.solution.tdgl_data.induced_vector_potential))))
+            out = _simcases.run_sim_case(spec, prop="C10", device=device, seed_solution=r0.solution)
+            out.setdefault("counters", {})["seeded_from_screening_runs"] = 1
+            out.setdefault("sample", {})["seed_max_abs_induced_potential"] = amax
+            if amax == 0.0:
+                out["nontrivial"] = False
+            shutil.rmtree(r0.outdir, ignore_errors=True)
+            return out
         return _simcases.run_sim_case(spec, prop="C10")
     from tdgl.finite_volume.operators import MeshOperators
     from tdgl.solver.options import SparseSolver
@@ -114,7 +146,7 @@ def run_case(spec):
     V, C = [], {"refresh_vs_fresh": 0, "refresh_vs_reference": 0, "first_build_vs_reference": 0, "pattern": 0}
     changed_refreshes = 0
     worst = 0.0
-    for seq in _sequences(rng, spec["nseq"]):
+    for seq in (spec.get("seqs") or _sequences(rng, spec["nseq"])):
         live = MeshOperators(mesh, SparseSolver.SUPERLU, fixed_sites=fixed, fix_psi=fix_psi)
         live.build_operators()
         for pos, k in enumerate(seq):
